@@ -42,7 +42,18 @@ def _alphabet(rng, m, count=3, dtype="float64"):
     mats = []
     for _ in range(count):
         n = int(rng.integers(m, m + 4))
-        J = build("svd", m, n, rng, {"cond": 10.0 ** rng.uniform(0, 1)}) * 10.0 ** rng.uniform(-1, 1)
+        if rng.integers(0, 3) == 0:
+            # small-integer entries (still well conditioned): Gramians with rows summing to exactly zero make the inner
+            # solver raise, an error path that the implementation swallows and that must not disturb the schedule
+            for _try in range(50):
+                J = rng.integers(-2, 3, size=(m, n)).astype(float)
+                sv = np.linalg.svd(J, compute_uv=False)
+                if sv[-1] > 0 and sv[0] / sv[-1] <= 10:
+                    break
+            else:
+                J = np.eye(m, n)
+        else:
+            J = build("svd", m, n, rng, {"cond": 10.0 ** rng.uniform(0, 1)}) * 10.0 ** rng.uniform(-1, 1)
         mats.append(J.tolist())
     return mats
 
